@@ -396,6 +396,13 @@ from .c03 import r6_streams_and_text_ranges as _text_ranges     # untouched colu
 from ..through_time import make_rule as _mk_tt
 _through_time = _mk_tt("C04")
 
+def _lazy_concatenate(ctx):
+    from .c05 import r1_aligned_views
+    r1_aligned_views(ctx)    # overlay / cache / buffer of concatenated lazy tables reach the constructor in their own slots
+def _shared_tables_not_written(ctx):
+    from .c20 import r3_self_array_writes, IO_TABLE_MODULES
+    r3_self_array_writes(ctx, IO_TABLE_MODULES)   # index tables are shared between a table and its selections: never written in place
+
 RULES = [
     ("C04-R6", r6_lazy_derivations),
     ("C04-R1", r1_pass_through),
@@ -408,4 +415,6 @@ RULES = [
     ("C04-R9", _field_table),
     ("C04-R10", _text_ranges),
     ("C04-T1", _through_time),
+    ("C04-R11", _lazy_concatenate),
+    ("C04-R12", _shared_tables_not_written),
 ]
